@@ -118,6 +118,8 @@ pub struct Recorder {
     pub held: BTreeMap<usize, Vec<(usize, &'static str)>>,
     pub waiting: BTreeMap<usize, (usize, &'static str)>,
     pub lock_owner: BTreeMap<usize, usize>,
+    /// pseudo lock id of a pending `join` -> task id of the joined thread (MAX until it has started)
+    pub join_targets: BTreeMap<usize, std::sync::Arc<std::sync::atomic::AtomicUsize>>,
     pub lock_edges: BTreeMap<(&'static str, &'static str), u64>,
     pub lock_ops: u64,
     // counters / probes
@@ -156,6 +158,7 @@ impl Recorder {
             held: BTreeMap::new(),
             waiting: BTreeMap::new(),
             lock_owner: BTreeMap::new(),
+            join_targets: BTreeMap::new(),
             lock_edges: BTreeMap::new(),
             lock_ops: 0,
             counters: BTreeMap::new(),
@@ -267,7 +270,12 @@ pub fn lock_state() -> Vec<(usize, String, Vec<(usize, &'static str)>, Option<(u
             .into_iter()
             .filter_map(|t| {
                 let held: Vec<(usize, &'static str)> = r.held.get(&t).cloned().unwrap_or_default();
-                let w = r.waiting.get(&t).map(|x| (x.0, x.1, r.lock_owner.get(&x.0).copied()));
+                let w = r.waiting.get(&t).map(|x| {
+                    let owner = r.lock_owner.get(&x.0).copied().or_else(|| {
+                        r.join_targets.get(&x.0).map(|a| a.load(std::sync::atomic::Ordering::SeqCst)).filter(|t| *t != usize::MAX)
+                    });
+                    (x.0, x.1, owner)
+                });
                 if held.is_empty() && w.is_none() {
                     None
                 } else {
